@@ -167,8 +167,16 @@ def run(prop, cfg, tier, seed):
                             break
             except Exception:
                 pass
+        in_sequence = None
+        if kind == "correspondence" and not failing and visible_diff(cfg, il, ml):
+            # the user-visible difference was there when the case ran as one of many parses in one host process and is
+            # gone when it runs alone: the implementation's result depends on what the process parsed before
+            in_sequence = {"impl_in_sequence": il, "model": ml}
+            failing.append("observable result differs from the specification when the case is one of a sequence of parses in "
+                           "one process (see in_sequence), but not when it runs alone in a fresh process: the result depends on "
+                           "earlier parses of the process (%s)" % why[:300])
         name = "%s_%s" % (kind, hashlib.md5(scl.encode()).hexdigest()[:10])
-        obj = {"property": prop, "kind": kind, "why": why, "tier": tier, "seed": seed,
+        obj = {"property": prop, "kind": kind, "why": why, "tier": tier, "seed": seed, "in_sequence": in_sequence,
                "header": header, "case": scl, "original_case": cl if cl != scl else None,
                "pretty": h1.pretty_case(header, scl), "impl": sil, "model": sml,
                "property_fails_on_impl": failing,
